@@ -46,7 +46,8 @@ func sameLexeme(src token.Token, out RTok) bool {
 	case token.STRING:
 		return out.Kind == RString && len(out.Text) >= 2 && out.Text[1:len(out.Text)-1] == src.Literal
 	case token.RAW_STRING:
-		return out.Kind == RTemplate && len(out.Text) >= 2 && out.Text[1:len(out.Text)-1] == src.Literal
+		// the token literal holds escaped backticks decoded; everything else as written
+		return out.Kind == RTemplate && len(out.Text) >= 2 && unescapeBackticks(out.Text[1:len(out.Text)-1]) == src.Literal
 	}
 	return out.Text == src.Literal
 }
@@ -120,3 +121,20 @@ func ZZH8SourceMap() {
 }
 
 var _ = compiler.New
+
+func unescapeBackticks(s string) string {
+	out := make([]byte, 0, len(s))
+	for i := 0; i < len(s); i++ {
+		if s[i] == '\\' && i+1 < len(s) {
+			if s[i+1] == '`' {
+				out = append(out, '`')
+			} else {
+				out = append(out, s[i], s[i+1])
+			}
+			i++
+			continue
+		}
+		out = append(out, s[i])
+	}
+	return string(out)
+}
